@@ -1709,6 +1709,27 @@ def run_witnesses(run, stage, exe, rep_):
                  None, {"kind": "witness", "id": wid, "req": lst[0]["req"], "instance": lst[0]["instance"]})
 
 
+def _numbers(v, out):
+    if isinstance(v, bool):
+        return
+    if isinstance(v, (int, float)):
+        out.append(v)
+    elif isinstance(v, dict):
+        for x in v.values():
+            _numbers(x, out)
+    elif isinstance(v, list):
+        for x in v:
+            _numbers(x, out)
+
+
+def mixes_float_with_wide_integer(schema, inst):
+    ns = []
+    _numbers(schema, ns)
+    _numbers(inst, ns)
+    wide = any(abs(x) > 2 ** 53 for x in ns)
+    return wide and any(isinstance(x, float) for x in ns)
+
+
 # ------------------------------------------------------------------------------------------------ judging
 def latin1_to_text(s):
     """the driver escapes reply strings bytewise (\\u00XX per byte): undo"""
@@ -1906,6 +1927,10 @@ def judge_batch(run, stage, exe, cases, rep_, fails, state):
                     run.count("%s.diff.reference_error_instances" % sn)
                     continue
                 if jv is None:
+                    continue
+                if mixes_float_with_wide_integer(doc, inst):
+                    # a floating-point number next to integers beyond 2^53: comparison precision is implementation-defined (module docstring)
+                    run.count("%s.not_judged.float_next_to_integer_beyond_2^53" % sn)
                     continue
                 run.count("%s.diff.verdicts_compared" % sn)
                 run.count("%s.diff.reference_%s" % (sn, "valid" if rv else "invalid"))
